@@ -65,6 +65,8 @@ def _range(a):
 
 def compatible(a, b, nins):
     """DESIGN 3.1 well-formedness of two atoms of one modification set."""
+    if a["op"] == "newfunc" or b["op"] == "newfunc":
+        return not (a["op"] == b["op"] == "newfunc" and a["name"] == b["name"])
     if a["op"] == "delfunc" or b["op"] == "delfunc":
         return False  # only used alone / with atoms on other functions (generated explicitly)
     if a["op"] == "scope" or b["op"] == "scope":
@@ -114,7 +116,7 @@ def retag(mods, base=100):
     out = []
     for mid, m in enumerate(mods):
         m2 = {k: v for k, v in m.items() if k != "pid"}
-        if m["op"] in ("ins", "rep") and isinstance(m["p"], list):
+        if m["op"] in ("ins", "rep", "newfunc") and isinstance(m["p"], list):
             p2 = []
             j = 0
             for pt in m["p"]:
